@@ -27,7 +27,7 @@ void KademliaTable::add_contact(const ChunkId& chunk_id, PeerContact contact, st
     const auto key = chunk_id_to_string(chunk_id);
     auto& locator = table_[key];
     locator.id = chunk_id;
-    locator.expires_at = contact.expires_at;
+    locator.expires_at = std::max(locator.expires_at, contact.expires_at);
 
     auto& holders = locator.holders;
     holders.erase(std::remove_if(holders.begin(), holders.end(), [&](const PeerContact& existing) {
